@@ -30,6 +30,7 @@ import (
 	"strconv"
 	"strings"
 	"sync"
+	"syscall"
 	"testing"
 	"time"
 
@@ -303,6 +304,23 @@ func vfRunReply(f []string) string {
 		}
 	}
 	return strings.Join(out, " ; ")
+}
+
+// vfRecvNow does one non-blocking receive on c; -1 when nothing is queued.
+func vfRecvNow(c *net.UDPConn, buf []byte) int {
+	rc, err := c.SyscallConn()
+	if err != nil {
+		return -1
+	}
+	n := -1
+	rc.Read(func(fd uintptr) bool {
+		m, _, e := syscall.Recvfrom(int(fd), buf, syscall.MSG_DONTWAIT)
+		if e == nil {
+			n = m
+		}
+		return true
+	})
+	return n
 }
 
 // ---------------------------------------------------------------- CoA cases
@@ -699,8 +717,9 @@ func vfRunCoA(f []string) string {
 				after.per[sentinelKey] = x
 			}
 			outcome, reply = "silent", nil
-			sock.SetReadDeadline(time.Now().Add(time.Millisecond))
-			if m, _, err := sock.ReadFromUDP(buf); err == nil {
+			// The listener sent its reply (if any) before it answered the sentinel, and a loopback send enqueues at the
+			// receiver synchronously: one non-blocking receive decides, no deadline involved.
+			if m := vfRecvNow(sock, buf); m >= 0 {
 				reply = append([]byte(nil), buf[:m]...)
 				outcome = "reply"
 			} else if after.drops() != before.drops() {
